@@ -22,6 +22,7 @@ func init() {
 			{"WALK-STOP", ruleWalkStop},
 			{"MERGE-SERIAL", ruleMergeSerial},
 			{"UNKNOWN-FIELD-SKIP", ruleUnknownFieldSkip},
+			{"MERGE-FRESH-COLLECTION", ruleMergeFreshCollection},
 			{"ERRFLOW", func(c *eng.Ctx) {
 				ruleErrFlowCone(c, "ERRFLOW", []string{"internal/db.(*DB).executeMerge"}, mergeConePkgs, 40)
 			}},
